@@ -23,7 +23,7 @@ PROP = dict(
               'into an accept) + completeness smoke, ASan/UBSan',
     rule='case = (expected name E from {host 1-5 labels over a tiny alphabet, e-mail, IPv4 with octets biased to 0,1,9,10,99,100,199,255 and 14/15-character '
          'forms, weird: trailing/leading dot, literal wildcard, control/8-bit}, nameType in all 6 values, mFlags in {0,ALWAYS_CHECK_CN,EMAIL_CI,both}, '
-         'subject CN absent or derived (UTF8/Printable/IA5/T61/BMP/BIT STRING), SAN list of 0-6 entries of dNSName/rfc822Name/iPAddress(4,16,odd)/URI/otherName/'
+         'subject CN absent or derived (UTF8/Printable/IA5/T61/BMP/BIT STRING), SAN list of 0-6 (sometimes 9, 12, 17 or 33) entries of dNSName/rfc822Name/iPAddress(4,16,odd)/URI/otherName/'
          'directoryName each derived from E by one of 28 operators (same, case, prefix, suffix, label shift, 7 wildcard forms, trailing dot, embedded/trailing NUL, '
          'control, 8-bit, edit 1/2, swap, local-part change ...) or random from the same grammar; all permutations for lists <= 3 (<= 5 in the allperm target), '
          'rotations+reverse+random otherwise); plus, in ~1/2 of the cases (drawn last on the tape), non-subject names: issuerAltName of 1-4 GeneralNames before or after the '
